@@ -29,9 +29,9 @@ ASSUMPTIONS = [
     "after a failed fit the estimator may be unfitted or as before; after a failed transform it must transform as before",
 ]
 MIN_NONTRIVIAL = {"quick": 250, "thorough": 2500}
-REQUIRED = {"quick": {"snapshot_comparisons": 4000, "history_calls": 4000, "raising_calls": 300, "param_object_checks": 600, "fit_repeat_checks": 300, "clean_spill_runs": 12,
+REQUIRED = {"quick": {"snapshot_comparisons": 4000, "history_calls": 4000, "raising_calls": 300, "param_object_checks": 600, "fit_repeat_checks": 300, "refit_same_object_checks": 300, "clean_spill_runs": 12,
                       "faults_injected": 60, "faults_fired": 60, "refits_after_fault": 20, "audit_events": 50, "estimators_covered": 20},
-            "thorough": {"snapshot_comparisons": 40000, "history_calls": 40000, "raising_calls": 3000, "param_object_checks": 6000, "fit_repeat_checks": 3000, "clean_spill_runs": 60,
+            "thorough": {"snapshot_comparisons": 40000, "history_calls": 40000, "raising_calls": 3000, "param_object_checks": 6000, "fit_repeat_checks": 3000, "refit_same_object_checks": 3000, "clean_spill_runs": 60,
                          "faults_injected": 400, "faults_fired": 400, "refits_after_fault": 100, "audit_events": 300, "estimators_covered": 20}}
 
 from vv.props.C02 import GROUPS  # noqa: E402
@@ -197,6 +197,18 @@ def check_history(ctx, c):
         if not okk:
             viol("clone-transform-differs", "transform(X2) after transform(X1) differs from transform(X2) alone on an identically fitted clone: %s" % why)
             return
+    # fitting the *same object* again on the same data must reproduce the first fit (no state carried over)
+    ft3, err3, bad = call(est, "fit_transform", c, "train", fit=True)
+    if bad:
+        return
+    ctx.count("refit_same_object_checks")
+    if err3 is not None:
+        viol("refit-same-object-raises/%s" % type(err3).__name__, "fitting the same estimator a second time raised %s" % str(err3)[:160])
+        return
+    okk, why = zoo.rows_equal(zoo.as_rows(ft), zoo.as_rows(ft3), 1e-9)
+    if not okk:
+        viol("refit-same-object-differs", "fit_transform on an already fitted (and used) estimator differs from its first fit on the same data: %s" % why)
+        return
     if state["ok"]:
         ctx.ok(sg, not name.startswith("Slid"))
 
